@@ -133,7 +133,7 @@ def _build_regexp_extract(expr_type: type[E], default_group: exp.Expr | None = N
             expression=seq_get(args, 1),
             position=seq_get(args, 2),
             occurrence=seq_get(args, 3),
-            group=exp.Literal.number(1) if group else default_group,
+            group=exp.Literal.number(1) if group else exp.maybe_copy(default_group),
             **(
                 {"null_if_pos_overflow": dialect.REGEXP_EXTRACT_POSITION_OVERFLOW_RETURNS_NULL}
                 if expr_type is exp.RegexpExtract
